@@ -754,12 +754,17 @@ func plainRunOne(b *BatchResult, prop string, seed, run uint64, nRandom int) {
 	}
 	report := func(s namedSched, mm []mismatch, st simrt.Stats) {
 		for _, x := range mm {
-			wj, _ := json.Marshal(wl)
+			var wj []byte
+			desc := ""
+			if b.keeping() {
+				wj, _ = json.Marshal(wl)
+				desc = m.describe()
+			}
 			cfg := s.cfg
 			cfg.Tape = st.TapeUsed
 			cfg.Generative = false
 			v := Violation{Property: prop, Engine: "plainsim", Class: x.class, Detail: x.detail, Seed: seed, Run: run,
-				Workload: wj, Sched: cfg, SchedName: s.name, Fingerprint: fpString(st.Fingerprint), Describe: m.describe()}
+				Workload: wj, Sched: cfg, SchedName: s.name, Fingerprint: fpString(st.Fingerprint), Describe: desc}
 			b.violation(v)
 		}
 	}
